@@ -21,6 +21,7 @@ pub mod pack;
 pub mod arith;
 pub mod coll;
 pub mod tags;
+pub mod lexrep;
 
 // ------------------------------------------------------------------ PRNG (splitmix64)
 #[derive(Clone)]
